@@ -4,7 +4,10 @@ in the driver builds real tokens from abstract descriptions and presents them to
 routes; accept/reject/user must equal the extracted model, and the property's own predicates are
 evaluated on the implementation's answers. The premise of the wrong-kind theorems (pairwise distinct secrets)
 is observed after every way of configuring the server (package defaults, every shipped ini file, every subset
-of the three secrets set by a site) and the cross-kind matrix is repeated under the secrets then in force."""
+of the three secrets set by a site) and the cross-kind matrix is repeated under the secrets then in force.
+Histories: whole sequences of presentations run in ONE driver process (the same tokens again and again at every verifier and
+wrapper, the server's own clock passing the exp of genuine short-lived tokens between two presentations, thousands of distinct
+genuine tokens verified in between and presented again); every step is judged from the clock readings before/after it."""
 import os, sys, itertools, glob, shutil, tempfile
 sys.path.insert(0, os.path.join(os.path.dirname(os.path.abspath(__file__)), "..", "lib"))
 import vf
@@ -140,6 +143,216 @@ def judge(c, op, ps, ts, b, ln, report):
             report("email-applied-without-token", "e-mail change/id-email set for user %d passed the guard without a valid e-mail token of that context and user presented by the user (or an administrator where allowed)" % path_user, rep)
         elif b[2] != "-1" and int(b[2]) != (e[IDX["eml_v"]] if e[IDX["eml_k"]] == 1 else 0):
             report("email-not-from-token", "the applied e-mail is not the token's", rep)
+
+# ------------------------------------------------------------------ histories: many presentations in one process
+HV = [1, 41, 42, 43, 44, 6]
+HVNAME = {1: "VerifyJwt", 41: "a LoginRequiredJSON endpoint", 42: "a LoginRequiredPathJSON endpoint", 43: "a LoginRequiredQuery endpoint",
+          44: "a LoginRequiredPathQuery endpoint", 6: "/token/info (caller = body token)"}
+
+
+def hist_pool(short):
+    """token 0 and 5 are genuine access tokens that live only `short` seconds; the others do not change during a history"""
+    return [access(user=TEST1, off=short), access(user=SYSOP), access(intact=0), refresh_t(off=3600), access(off=-3600),
+            access(user=TEST3, off=short, cli_v=2), access(key=3), email_t(), access(user=TEST3), access(alg=3), access(intact=2, user=SYSOP)]
+
+
+def hist_line(steps, toks):
+    return "11|%s|%s" % (" ".join("%d %d %d" % s for s in steps), "|".join(" ".join(map(str, t)) for t in toks))
+
+
+def hist_static_ok(t):
+    return (t[0] == 1 and t[IDX["alg"]] in (0, 1, 2) and t[IDX["key"]] == 0 and t[IDX["intact"]] == 1 and t[IDX["nbf"]] == 0 and t[IDX["iat"]] == 0
+            and t[IDX["exp_k"]] == 2 and t[IDX["sub_k"]] == 1)
+
+
+def judge_history(c, impl, ln, steps, toks, out, tag):
+    """the property's predicates on every step of one history; returns (model line, canonical impl answer, seen) or None"""
+    f = out.split()
+    if f[0] != "0" or len(f) != 2 + 6 * len(steps):
+        c.violation("verifier-crash", "a history of presentations crashed/hung (status %s)" % " ".join(f[:2]), {"cases": [ln], "got": out[:400]})
+        return None
+    now0 = int(f[1])
+    recs = [list(map(int, f[2 + 6 * k: 8 + 6 * k])) for k in range(len(steps))]
+    msteps, ians = [], []
+    seen = {"valid": set(), "expired": set()}   # verifiers at which token 0 / 5 was accepted while valid / presented after its expiry
+    accepted_before = set()
+    n_bulk = 0
+    for k, ((kind, a, b), r) in enumerate(zip(steps, recs)):
+        nb, na = r[4], r[5]
+        if kind == 1:
+            continue
+        if kind in (2, 3):
+            bad, first, got, rej = r[:4]
+            if kind == 2:
+                n_bulk += a
+            c.nontrivial((tag, "bulk", kind, a, b, n_bulk))
+            if bad:
+                rep_ln, rep_step, rep_got = ln, k, " ".join(map(str, r))
+                small = "11|2 %d 1 3 1 %d|%s" % (n_bulk, b, " ".join(map(str, toks[0])))          # the same number of tokens and nothing else
+                so = vf.run_impl(impl, "C16", [small], deadline_ms=120000)[0].split()
+                if len(so) == 14 and so[0] == "0" and int(so[8]) > 0:
+                    rep_ln, rep_step, rep_got = small, 1, " ".join(so[8:14])
+                c.violation("token-answered-as-another-token",
+                            "with %d distinct genuine access tokens (each of a user of its own) verified in one process, %d of them were answered as ANOTHER user / with another token's claims when presented%s at %s: "
+                            "token #%d (user w%06d) was answered as %s" % (n_bulk, bad, " again" if kind == 3 else "", HVNAME[b], first, first, "user w%06d" % got if got >= 0 else "a foreign user"),
+                            {"cases": [rep_ln], "step": rep_step, "full_history": ln, "step_meaning": "kind 2 = make a tokens and present each at verifier b; kind 3 = present every a-th of them again", "got": rep_got,
+                             "expected": "bad = 0: every genuine token authenticates its own sub with its own exp / cli",
+                             "replay_with": "printf '%s\\n' '<case>' | build/implrun C16    (answer: 0 now0, then per step: bad first got rejected nb na)"})
+            ians.append("bulk-refused=%d" % rej)
+            msteps.append(None)
+            continue
+        t = toks[a]
+        acc, who, eo, cli = r[:4]
+        exp_abs = now0 + t[IDX["exp_v"]] if t[IDX["exp_k"]] == 2 else None
+        if exp_abs is None or na < exp_abs:
+            phase = "valid-time"
+        elif nb >= exp_abs:
+            phase = "expired"
+        else:
+            continue                                  # the clock passed the expiry during the step: no judgement, not compared
+        auth = (acc == 1) if b in (1, 6) else (who != GUEST)
+        c.nontrivial((tag, a, b, phase, tuple(t)))
+        ok_static = hist_static_ok(t)
+        if ok_static and a in (0, 5):
+            if phase == "valid-time" and auth:
+                seen["valid"].add((a, b))
+            if phase == "expired":
+                seen["expired"].add((a, b))
+        if auth:
+            rep = {"cases": [ln], "step": k, "token": dict(zip(FIELDS, t)), "verifier": HVNAME[b], "got": " ".join(map(str, r)), "now0": now0,
+                   "step_meaning": "kind 0 = present token a at verifier b -> acc who exp-now0 cli clock-before clock-after; kind 1 = wait until the clock has passed the exp of token a",
+                   "replay_with": "printf '%s\\n' '<case>' | build/implrun C16 -deadline 120000"}
+            if ok_static and phase == "expired" and sub_of(t) == who:
+                used = a in accepted_before
+                small = "11|0 0 %d 1 0 0 0 0 %d|%s" % (b, b, " ".join(map(str, t)))
+                so = vf.run_impl(impl, "C16", [small], deadline_ms=120000)[0].split()
+                if len(so) == 20 and so[0] == "0" and ((so[14] == "1") if b in (1, 6) else (int(so[15]) != GUEST)) and int(so[18]) >= int(so[1]) + t[IDX["exp_v"]]:
+                    rep = dict(rep, cases=[small], step=2, got=" ".join(so), full_history=ln)
+                c.violation("expired-token-accepted-after-earlier-use" if used else "expired-token-accepted",
+                            "%s authenticated user %d with a genuine access token %d s after the token's own exp%s" %
+                            (HVNAME[b], who, nb - exp_abs, " (the same token had been accepted there while it was valid: an answer taken from an earlier presentation instead of the token)" if used else ""), rep)
+            elif ok_static and phase == "valid-time" and sub_of(t) != who:
+                c.violation("wrong-user", "%s answered a genuine access token of user %s as user %d in a history" % (HVNAME[b], sub_of(t), who), rep)
+            elif not (ok_static and phase == "valid-time"):
+                c.violation("forged-token-accepted", "%s accepted in a history (as user %d) a token that is not a valid access token: %s" % (HVNAME[b], who, dict(zip(FIELDS, t))), rep)
+            elif b == 1 and (eo != t[IDX["exp_v"]] or cli != (t[IDX["cli_v"]] if t[IDX["cli_k"]] == 1 else 0)):
+                c.violation("claims-of-another-token", "VerifyJwt returned exp/cli that are not the token's own (exp-now0 %d, cli %d)" % (eo, cli), rep)
+            accepted_before.add(a)
+        if b == 1:
+            ians.append("1 %d %d %d 0" % (who, now0 + eo, cli) if acc else "0")
+        elif b == 6:
+            ians.append("1 %d" % who if acc else "0")
+        else:
+            ians.append(str(who))
+        msteps.append((b, a, nb))
+    mtoks = []
+    for t in toks:
+        t = list(t)
+        if t[IDX["exp_k"]] == 2:
+            t[IDX["exp_v"]] = now0 + t[IDX["exp_v"]]
+        mtoks.append(" ".join(map(str, t)))
+    ms = [m for m in msteps if m is not None]
+    mline = "21|%s|%s" % (" ".join("%d %d %d" % m for m in ms), "|".join(mtoks))
+    return mline, ians, seen
+
+
+def histories(c, impl, model, rng, thorough):
+    """one process, whole histories: (a) the same tokens at every verifier and wrapper before AND after the clock passes the exp of two
+    of them (the driver waits on the server's own clock); (b) thousands of distinct genuine tokens of other sessions verified in
+    between, every one presented again; (c) PRNG histories. Every step judged by the property's predicate; answers vs Model/C16.history."""
+    cases, outs = [], []     # (tag, line, steps, toks)
+    # ---- (a) the clock passes a stored token's expiry
+    conclusive = False
+    for short in (2, 8, 45):
+        toks = hist_pool(short)
+        allp = [(0, a, v) for a in range(len(toks)) for v in HV]
+        steps = []
+        for _ in range(2):
+            p = list(allp); rng.shuffle(p); steps += p
+        steps += [(1, 0, 0), (1, 5, 0)]
+        for _ in range(2):
+            p = list(allp); rng.shuffle(p); steps += p
+        ln = hist_line(steps, toks)
+        out = vf.run_impl(impl, "C16", [ln], deadline_ms=180000)[0]
+        c.count(len(steps), "history-steps")
+        cases.append(("clock", ln, steps, toks)); outs.append(out)
+        res = judge_history(c, impl, ln, steps, toks, out, "clock")
+        cases[-1] = cases[-1] + (res,)
+        if res is None:
+            break
+        want = {(a, v) for a in (0, 5) for v in HV}
+        if want <= res[2]["valid"] and want <= res[2]["expired"]:
+            conclusive = True
+            c.cov["distribution"]["history-token-lifetime-s"] = short
+            break
+        c.cov.setdefault("notes", []).append("history with %d s tokens: the machine was too slow to present them while valid at every verifier; repeated with longer-lived tokens" % short)
+    if not conclusive and cases and cases[-1][-1] is not None:
+        c.broken.append({"kind": "coverage", "where": "checks/C16.py histories", "theorem": "used-while-valid-then-expired history not observed at every verifier", "log": "lifetimes 2, 8, 45 s all missed"})
+    # ---- (b) thousands of tokens in the same process, (c) PRNG histories
+    more = []
+    chunk = 40960 if thorough else 2048
+    toks = hist_pool(3600)
+    allp = [(0, a, v) for a in range(len(toks)) for v in HV]
+    steps = list(allp)
+    for v in (1, 41, 42, 6, 43):
+        steps += [(2, chunk, v)] + allp + [(3, 1, 1), (3, 1, 41), (3, 3, 44), (3, 5, 6)]
+    steps += [(2, 7, 1), (3, 1, 43), (3, 1, 42)]
+    more.append(("volume", hist_line(steps, toks), steps, toks))
+    for h in range(40 if thorough else 10):
+        toks = hist_pool(3600)
+        rng.shuffle(toks)
+        steps = []
+        for _ in range(80):
+            a = rng.randrange(len(toks))
+            steps.append((0, a, rng.choice(HV)))
+            if rng.random() < 0.4:
+                steps.append((0, a, rng.choice(HV)))        # the same token again straight away
+            if rng.random() < 0.05:
+                steps.append((2, rng.randrange(1, 300), rng.choice(HV)))
+        steps.append((3, 1, rng.choice(HV)))
+        more.append(("prng%d" % h, hist_line(steps, toks), steps, toks))
+    mo = vf.run_impl(impl, "C16", [m[1] for m in more], deadline_ms=600000 if thorough else 120000)
+    for m, out in zip(more, mo):
+        c.count(len(m[2]), "history-steps")
+        cases.append(m + (judge_history(c, impl, m[1], m[2], m[3], out, m[0]),))
+    c.cov["distribution"]["histories"] = len(cases)
+    c.cov["distribution"]["history-distinct-tokens-in-one-process"] = 5 * chunk + 7
+    # ---- the same histories on the extracted model (stateless by construction: C16_history_prefix_irrelevant)
+    if model:
+        good = [x for x in cases if x[4] is not None]
+        mout = vf.run_model(model, [x[4][0] for x in good])
+        ci_, cm_ = [], []
+        for x, m in zip(good, mout):
+            mline, ians, _ = x[4]
+            nsteps = [s for s in mline.split("|")[1].split()]
+            # regroup the model's flat answer by verifier
+            mf = m.split()
+            pos, mans, vs = 1, [], [int(v) for v in nsteps[0::3]]
+            ok = mf[:1] == ["0"]
+            for v in vs:
+                if not ok or pos >= len(mf):
+                    ok = False
+                    break
+                if v == 1:
+                    n = 5 if mf[pos] == "1" else 1
+                elif v == 6:
+                    n = 2 if mf[pos] == "1" else 1
+                else:
+                    n = 1
+                mans.append(" ".join(mf[pos:pos + n])); pos += n
+            ci_.append(" ; ".join(a for a in ians))
+            cm_.append(" ; ".join(_merge_bulk(ians, mans)) if ok else m)
+        vf.correspond(c, "histories in one process vs Model/C16.history (every genuine bulk token accepted)", [x[1] for x in good], ci_, cm_)
+    c.sample({"op": "history", "kinds": [x[0] for x in cases], "steps": [len(x[2]) for x in cases]})
+
+
+def _merge_bulk(ians, mans):
+    """the model line carries the presentations only; a bulk step's expected answer is 'no genuine token refused'"""
+    out, it = [], iter(mans)
+    for a in ians:
+        out.append("bulk-refused=0" if a.startswith("bulk-refused=") else next(it, "?"))
+    return out
+
 
 # ------------------------------------------------------------------ the secrets in force
 KINDS = {0: "access", 1: "refresh", 2: "e-mail"}
@@ -461,6 +674,7 @@ def main():
     # ---- the property's own predicates on the implementation's answers
     for (op, ps, ts), b, ln in zip(cases, canon, lines):
         judge(c, op, ps, ts, b, ln, c.violation)
+    histories(c, impl, model, rng, thorough)
     secrets_in_force(c, impl, model, rng, thorough)
     c.sample({"op": "VerifyJwt(check)", "token": dict(zip(FIELDS, cases[0][2][0])), "impl": io[0]})
     k = n_single + 5
@@ -468,12 +682,18 @@ def main():
     c.cov["exhaustive_parts"] = ["every single-field mutation of a valid access / refresh / e-mail(2 contexts) token, each presented to all six verifiers/wrappers",
                                  "refresh expiry distances -4..+4 s around the pairing window x user pairs x client-info combinations",
                                  "secrets in force: package defaults, api.InitConfig() with nothing configured, every *.ini of the repository and a site ini for every subset of the three secrets (8), each loaded by api.InitConfig() after viper and by initgin.InitAllConfig in a process of its own; "
-                                 "under each: all cross-uses of forged and server-issued tokens of the three kinds / two contexts at every verifier, wrapper and route"]
+                                 "under each: all cross-uses of forged and server-issued tokens of the three kinds / two contexts at every verifier, wrapper and route",
+                                 "histories in one process: 11 tokens x {VerifyJwt, LoginRequiredJSON, LoginRequiredPathJSON, LoginRequiredQuery, LoginRequiredPathQuery, /token/info} presented twice before and twice after the clock "
+                                 "passes the exp of the two short-lived genuine tokens; every one of the distinct genuine bulk tokens presented again after every chunk"]
     c.finish(rule="base tokens x all single-field mutations (algorithm header, signing key, 4 kinds of alteration, each claim absent/mistyped/alternative, expiry offsets from -25h to +8d, nbf/iat) + PRNG(seed) double mutations, "
                   "cross-presented to every verifier; refresh / token-info / e-mail consumers driven through an in-process gin router; the cross-kind matrix (forged + issued by Create*Token) repeated under the secrets in force after every configuration (shipped ini files, site inis with PRNG(seed) secrets); "
-                  "distinct = distinct (operation, parameters, token descriptions) + distinct (configuration, key classes)",
+                  "histories in one process (op 11): PRNG(seed)-ordered presentations around a wait on the server's clock, 5 chunks of distinct genuine tokens each presented again, PRNG(seed) histories; "
+                  "distinct = distinct (operation, parameters, token descriptions) + distinct (configuration, key classes) + distinct (history kind, token, verifier, before/after expiry)",
              assumptions=["MAC idealisation: a token verifies under a secret iff it was signed with it and not altered (HMAC unforgeability, golang-jwt's parser) — built into Model/C16.lib_accepts",
-                          "the three secrets in force are pairwise different HMAC keys: OBSERVED by the check for the package defaults, every shipped ini file and every subset of secrets a site may set (predicate secrets-not-distinct; necessary and sufficient by C16_wrong_kind_iff_distinct_secrets); an assumption only for site secrets the check has not seen (an operator choosing equal values)", "expiry offsets keep 30 s away from the clock so that no case straddles a second boundary"])
+                          "the three secrets in force are pairwise different HMAC keys: OBSERVED by the check for the package defaults, every shipped ini file and every subset of secrets a site may set (predicate secrets-not-distinct; necessary and sufficient by C16_wrong_kind_iff_distinct_secrets); an assumption only for site secrets the check has not seen (an operator choosing equal values)", "expiry offsets keep 30 s away from the clock so that no case straddles a second boundary",
+                          "histories: that the Go verifiers keep no state between requests is VALIDATED by the histories run, not proved (the theorems C16_history_* are about the model, which answers from clock and token alone); "
+                          "the run sees tables of up to 10 240 tokens per process (thorough: 204 800) and expiries passed by a few seconds of real time; a step during which the clock crosses a token's exp is not judged",
+                          "the driver's clock readings (types.NowTS before and after each step) and golang-jwt's time source are the same system clock"])
 
 
 if __name__ == "__main__":
